@@ -322,7 +322,9 @@ Definition step (d : dialect) (b : bindparam) (values : list value) (st : pstate
   match name with
   | PParam =>
       match st.(ps_repl) with
-      | Some (to_update, _) =>              (* escaped_name in replacement_expressions *)
+      | Some (to_update, _) =>              (* escaped_name in replacement_expressions: the expansion of the
+                                               first occurrence is reused (db2bb13 also keeps its values, which
+                                               only the bind processors of tuple types - not modelled - read) *)
           Ok {| ps_params := update_params st.(ps_params) to_update;
                 ps_pos := st.(ps_pos) ++ map (fun kv => PExp (fst kv)) to_update;
                 ps_repl := st.(ps_repl) |}
